@@ -440,11 +440,18 @@ impl IoLoop {
                     self.inner.write_to_stream(stream)?;
                 }
                 if event.readiness().is_readable() {
-                    self.inner.read_from_stream(
+                    let result = self.inner.read_from_stream(
                         stream,
                         &mut self.frame_buffer,
                         |inner, frame| state.process(inner, frame),
-                    )?;
+                    );
+                    match state {
+                        // We have the CloseOk we were waiting for, so the connection is done.
+                        // The server may close the socket right behind it; seeing that in the
+                        // same read is the normal end, not a failure.
+                        ConnectionState::ClientClosed => (),
+                        _ => result?,
+                    }
                 }
             }
             HEARTBEAT => self.inner.process_heartbeat_timers()?,
